@@ -13,6 +13,7 @@ import SkNet.Lemmas.Convert
 import SkNet.Lemmas.ConvertCsr
 import SkNet.Lemmas.LinOpType
 import SkNet.Lemmas.LinOpProg
+import SkNet.Lemmas.LinOpCast
 
 namespace SkNet.C15
 open SkNet SkNet.LinOp SkNet.Convert
@@ -41,6 +42,30 @@ theorem astype_float_keeps (o o' : Op) (dt : CastTo) (hdt : dt ≠ .int) (h : o.
 theorem astype_classes (o : Op) (dt : CastTo) :
     (∃ o', o.astype dt = .ok o') ↔ (o.kind = .slr ∨ o.kind = .lap ∨ o.kind = .con) := by
   cases o <;> simp [Op.astype, Op.kind]
+
+/-- **what `astype(int)` guarantees whatever the stored parts are**: a SparseLR or a CoNeighbor cast to `int` maps
+integer vectors to integer vectors (every stored part is truncated to an integer). This is the specification the
+harness evaluates on the implementation's output (`c15.spec_integral`, `integralVec`) when the parts are not integers
+and `denote_op` therefore does not apply. -/
+theorem astype_int_integral (v : Vec) (hv : ∀ j, IsInt (vget v j)) :
+    (∀ (s : SLR), integralVec ((s.astype .int).matvec v) = true) ∧
+    (∀ (c : CoNeighbor), integralVec ((c.astype .int).matvec v) = true) := by
+  constructor
+  · intro s
+    rw [integralVec_iff]
+    intro x hx
+    obtain ⟨i, hi, rfl⟩ := List.getElem_of_mem hx
+    have := SLR.astype_int_integral s v hv i
+    rwa [vget, List.getD_eq_getElem?_getD, List.getElem?_eq_getElem hi, Option.getD_some] at this
+  · intro c
+    rw [integralVec_iff]
+    intro x hx
+    obtain ⟨i, hi, rfl⟩ := List.getElem_of_mem hx
+    have := CoNeighbor.astype_int_integral c v hv i
+    rwa [vget, List.getD_eq_getElem?_getD, List.getElem?_eq_getElem hi, Option.getD_some] at this
+
+example : integralVec ((SLR.astype .int ⟨⟨1, 1, [[1/2]]⟩, [([3/2], [5/2])]⟩).matvec [3]) = true ∧
+    integralVec ((⟨⟨1, 1, [[1/2]]⟩, [([3/2], [5/2])]⟩ : SLR).matvec [3]) = false := by decide +kernel
 
 /-- the cast of the parts is not the cast of the matrix: `SparseLR(0, [(3/2, 2)])` denotes `[[3]]`, after `astype(int)`
 the low-rank vectors are `1` and `2` and the operator denotes `[[2]]` — hence the hypothesis `IntCastsExact` above -/
